@@ -195,4 +195,1650 @@ theorem forall_mem_aerase {κ ν : Type} [DecidableEq κ] {P : κ × ν → Prop
     (h : ∀ p ∈ l, P p) (k : κ) : ∀ p ∈ aerase k l, P p :=
   fun p hp => h p (mem_aerase.1 hp).1
 
+/-! ## 3. well-formedness of the balance helpers -/
+
+theorem wfBal_iff (g : GBal) : wfBal g = true ↔
+    (∀ c ∈ g.native, c.amount ≠ 0) ∧ (∀ c ∈ g.cw20, c.amount ≠ 0) ∧ 1 ≤ g.count ∧
+    (keys g.native).Nodup ∧ (keys g.cw20).Nodup ∧ g.nfts.Nodup := by
+  simp only [wfBal, Bool.and_eq_true, decide_eq_true_eq, allNonzero_iff, and_assoc]
+
+theorem checkValid_iff (g : GBal) : checkValid g = true ↔ wfBal g = true ∧ g.count ≤ MAX_ASSETS := by
+  simp only [wfBal, checkValid, Bool.and_eq_true, decide_eq_true_eq]
+  constructor
+  · rintro ⟨⟨⟨⟨⟨⟨a, b⟩, c⟩, d⟩, e⟩, f⟩, g⟩; exact ⟨⟨⟨⟨⟨⟨a, b⟩, c⟩, e⟩, f⟩, g⟩, d⟩
+  · rintro ⟨⟨⟨⟨⟨⟨a, b⟩, c⟩, e⟩, f⟩, g⟩, d⟩; exact ⟨⟨⟨⟨⟨⟨a, b⟩, c⟩, d⟩, e⟩, f⟩, g⟩
+
+theorem wfBal_of_checkValid {g : GBal} (h : checkValid g = true) : wfBal g = true :=
+  ((checkValid_iff g).1 h).1
+
+/-- `normalized_check` accepts exactly the deposits that make a well-formed balance of their own -/
+theorem wfBal_fromBalance {funds : Funds} (h : normalizedCheck funds = true) :
+    wfBal (fromBalance funds) = true := by
+  cases funds with
+  | native cs =>
+    cases cs with
+    | nil => simp [normalizedCheck] at h
+    | cons a t =>
+      simp [normalizedCheck, allNonzero, keys] at h
+      simp [wfBal, fromBalance, GBal.count, allNonzero, keys, h]
+      exact ⟨h.1.2, h.2.1⟩
+  | cw20 c =>
+    simp only [normalizedCheck, decide_eq_true_eq] at h
+    simp [wfBal, fromBalance, GBal.count, allNonzero, keys, h]
+
+theorem normalizedCheck_iff_wfBal (funds : Funds) :
+    normalizedCheck funds = true ↔ wfBal (fromBalance funds) = true := by
+  refine ⟨wfBal_fromBalance, ?_⟩
+  cases funds with
+  | native cs =>
+    cases cs with
+    | nil => simp [wfBal, fromBalance, GBal.count]
+    | cons a t =>
+      simp only [normalizedCheck, wfBal, fromBalance, Bool.and_eq_true, decide_eq_true_eq]
+      rintro ⟨⟨⟨⟨⟨a, _⟩, _⟩, d⟩, _⟩, _⟩
+      exact ⟨⟨by simp, a⟩, of_decide_eq_true d⟩
+  | cw20 c =>
+    simp [normalizedCheck, wfBal, fromBalance, allNonzero]
+    exact fun h _ _ _ => h
+
+theorem wfBal_fromNft (n : Nft) : wfBal (fromNft n) = true := by
+  simp [wfBal, fromNft, GBal.count, allNonzero, keys]
+
+theorem validateAsk_checkValid {r : RawGBal} {g : GBal} (h : validateAsk r = some g) :
+    checkValid g = true := by
+  unfold validateAsk at h
+  split at h
+  · dsimp only at h
+    split at h
+    · cases h; assumption
+    · cases h
+  · cases h
+
+/-! ### `add_tokens` -/
+
+theorem addCoin_keys {l r : List Coin} {c : Coin} (h : addCoin l c = some r) :
+    keys r = if c.key ∈ keys l then keys l else keys l ++ [c.key] := by
+  induction l generalizing r with
+  | nil =>
+    simp only [addCoin, Option.some.injEq] at h
+    subst h; simp [keys]
+  | cons x xs ih =>
+    simp only [addCoin] at h
+    split at h
+    · next hk =>
+      split at h
+      · cases h; simp [keys, hk]
+      · cases h
+    · next hk =>
+      split at h
+      · cases h
+      · next r' hr' =>
+        cases h
+        have := ih hr'
+        have e1 : keys (x :: r') = x.key :: keys r' := rfl
+        have e2 : keys (x :: xs) = x.key :: keys xs := rfl
+        have hk' : ¬ c.key = x.key := fun e => hk e.symm
+        rw [e1, e2, this]
+        by_cases hm : c.key ∈ keys xs
+        · simp [hm]
+        · simp [hm, hk']
+
+theorem addCoin_nodup {l r : List Coin} {c : Coin} (h : addCoin l c = some r)
+    (nd : (keys l).Nodup) : (keys r).Nodup := by
+  rw [addCoin_keys h]
+  split
+  · exact nd
+  · next hn =>
+    rw [List.nodup_append]
+    refine ⟨nd, by simp, ?_⟩
+    intro a ha b hb
+    simp only [List.mem_singleton] at hb
+    subst hb
+    intro e; subst e; exact hn ha
+
+theorem addCoin_nonzero {l r : List Coin} {c : Coin} (h : addCoin l c = some r)
+    (hl : ∀ x ∈ l, x.amount ≠ 0) (hc : c.amount ≠ 0) : ∀ x ∈ r, x.amount ≠ 0 := by
+  induction l generalizing r with
+  | nil =>
+    simp only [addCoin, Option.some.injEq] at h
+    subst h; simpa using hc
+  | cons x xs ih =>
+    simp only [addCoin] at h
+    split at h
+    · split at h
+      · cases h
+        intro y hy
+        rcases List.mem_cons.1 hy with rfl | hy
+        · have := hl x List.mem_cons_self
+          simp only; omega
+        · exact hl y (List.mem_cons_of_mem _ hy)
+      · cases h
+    · split at h
+      · cases h
+      · next r' hr' =>
+        cases h
+        intro y hy
+        rcases List.mem_cons.1 hy with rfl | hy
+        · exact hl _ List.mem_cons_self
+        · exact ih hr' (fun z hz => hl z (List.mem_cons_of_mem _ hz)) y hy
+
+theorem addCoin_coinAmt {l r : List Coin} {c : Coin} (h : addCoin l c = some r) (k : Nat) :
+    coinAmt r k = coinAmt l k + (if c.key = k then c.amount else 0) := by
+  induction l generalizing r with
+  | nil =>
+    simp only [addCoin, Option.some.injEq] at h
+    subst h; simp [coinAmt_cons, coinAmt_nil]
+  | cons x xs ih =>
+    simp only [addCoin] at h
+    split at h
+    · next hk =>
+      split at h
+      · cases h
+        simp only [coinAmt_cons, hk]
+        split <;> omega
+      · cases h
+    · split at h
+      · cases h
+      · next r' hr' =>
+        cases h
+        simp only [coinAmt_cons, ih hr']
+        omega
+
+/-- the first entry of a denomination holds at most the denomination's total -/
+theorem addCoin_ne_none {l : List Coin} {c : Coin} (h : coinAmt l c.key + c.amount ≤ U128MAX) :
+    addCoin l c ≠ none := by
+  induction l with
+  | nil => simp [addCoin]
+  | cons x xs ih =>
+    simp only [addCoin]
+    rw [coinAmt_cons] at h
+    split
+    · next hk =>
+      simp only [hk, if_true] at h
+      rw [if_pos (by omega)]; simp
+    · next hk =>
+      simp only [hk, if_false] at h
+      have := ih (by omega)
+      split
+      · contradiction
+      · simp
+
+theorem addCoins_nodup {l r cs : List Coin} (h : addCoins l cs = some r) (nd : (keys l).Nodup) :
+    (keys r).Nodup := by
+  induction cs generalizing l with
+  | nil => simp only [addCoins, Option.some.injEq] at h; subst h; exact nd
+  | cons c cs ih =>
+    simp only [addCoins] at h
+    split at h
+    · cases h
+    · next l' hl' => exact ih h (addCoin_nodup hl' nd)
+
+theorem addCoins_nonzero {l r cs : List Coin} (h : addCoins l cs = some r)
+    (hl : ∀ x ∈ l, x.amount ≠ 0) (hc : ∀ c ∈ cs, c.amount ≠ 0) : ∀ x ∈ r, x.amount ≠ 0 := by
+  induction cs generalizing l with
+  | nil => simp only [addCoins, Option.some.injEq] at h; subst h; exact hl
+  | cons c cs ih =>
+    simp only [addCoins] at h
+    split at h
+    · cases h
+    · next l' hl' =>
+      exact ih h (addCoin_nonzero hl' hl (hc c List.mem_cons_self))
+        (fun x hx => hc x (List.mem_cons_of_mem _ hx))
+
+theorem addCoins_coinAmt {l r cs : List Coin} (h : addCoins l cs = some r) (k : Nat) :
+    coinAmt r k = coinAmt l k + coinAmt cs k := by
+  induction cs generalizing l with
+  | nil => simp only [addCoins, Option.some.injEq] at h; subst h; simp [coinAmt_nil]
+  | cons c cs ih =>
+    simp only [addCoins] at h
+    split at h
+    · cases h
+    · next l' hl' =>
+      rw [ih h, addCoin_coinAmt hl', coinAmt_cons]; omega
+
+/-- no 128-bit overflow: if per denomination the stored total plus the deposited total fits a
+    `Uint128`, `add_tokens` does not abort -/
+theorem addCoins_ne_none {l cs : List Coin} (h : ∀ k, coinAmt l k + coinAmt cs k ≤ U128MAX) :
+    addCoins l cs ≠ none := by
+  induction cs generalizing l with
+  | nil => simp [addCoins]
+  | cons c cs ih =>
+    simp only [addCoins]
+    have hc := h c.key
+    rw [coinAmt_cons] at hc
+    simp only [if_true] at hc
+    split
+    · next hn => exact absurd hn (addCoin_ne_none (by omega))
+    · next l' hl' =>
+      apply ih
+      intro k
+      have := h k
+      rw [coinAmt_cons] at this
+      rw [addCoin_coinAmt hl']
+      omega
+
+theorem addCoins_keys {l r cs : List Coin} (h : addCoins l cs = some r) :
+    ∃ ex, keys r = keys l ++ ex ∧ ∀ c ∈ cs, c.key ∈ keys r := by
+  induction cs generalizing l with
+  | nil =>
+    simp only [addCoins, Option.some.injEq] at h; subst h
+    exact ⟨[], by simp, by simp⟩
+  | cons c cs ih =>
+    simp only [addCoins] at h
+    split at h
+    · cases h
+    · next l' hl' =>
+      obtain ⟨ex, e, hm⟩ := ih h
+      have hk := addCoin_keys hl'
+      by_cases hc : c.key ∈ keys l
+      · rw [if_pos hc] at hk
+        refine ⟨ex, by rw [e, hk], ?_⟩
+        intro x hx
+        rcases List.mem_cons.1 hx with rfl | hx
+        · rw [e, hk]; exact List.mem_append_left _ hc
+        · exact hm x hx
+      · rw [if_neg hc] at hk
+        refine ⟨[c.key] ++ ex, by rw [e, hk, List.append_assoc], ?_⟩
+        intro x hx
+        rcases List.mem_cons.1 hx with rfl | hx
+        · rw [e, hk]; simp
+        · exact hm x hx
+
+theorem keys_length (l : List Coin) : (keys l).length = l.length := by simp [keys]
+
+theorem addCoins_length_le {l r cs : List Coin} (h : addCoins l cs = some r) : l.length ≤ r.length := by
+  obtain ⟨ex, e, _⟩ := addCoins_keys h
+  have := congrArg List.length e
+  simp only [keys_length, List.length_append] at this
+  omega
+
+theorem coinAmt_of_mem {l : List Coin} {x : Coin} (nd : (keys l).Nodup) (hx : x ∈ l) :
+    coinAmt l x.key = x.amount := by
+  induction l with
+  | nil => simp at hx
+  | cons a l ih =>
+    have e2 : keys (a :: l) = a.key :: keys l := rfl
+    rw [e2, List.nodup_cons] at nd
+    rw [coinAmt_cons]
+    rcases List.mem_cons.1 hx with rfl | hx
+    · simp [coinAmt_eq_zero_of_not_mem nd.1]
+    · have hne : ¬ a.key = x.key := by
+        intro e
+        apply nd.1
+        rw [e]
+        exact List.mem_map.2 ⟨x, hx, rfl⟩
+      simp [hne, ih nd.2 hx]
+
+theorem subsetLen_iff {α : Type} [DecidableEq α] (a b : List α) :
+    subsetLen a b = true ↔ (∀ x ∈ a, x ∈ b) ∧ a.length = b.length := by
+  simp [subsetLen]
+
+/-- a non-empty deposit of non-zero coins always changes the coin list (the `genbal_cmp` test of
+    the top-up handlers cannot fire) -/
+theorem addCoins_changed {l r cs : List Coin} (h : addCoins l cs = some r) (nd : (keys l).Nodup)
+    (hne : cs ≠ []) (hc : ∀ c ∈ cs, c.amount ≠ 0) : subsetLen l r = false := by
+  cases hs : subsetLen l r with
+  | false => rfl
+  | true =>
+    exfalso
+    obtain ⟨hsub, hlen⟩ := (subsetLen_iff l r).1 hs
+    obtain ⟨ex, e, hm⟩ := addCoins_keys h
+    have hl := congrArg List.length e
+    simp only [keys_length, List.length_append] at hl
+    have hex : ex = [] := List.eq_nil_of_length_eq_zero (by omega)
+    subst hex
+    rw [List.append_nil] at e
+    cases cs with
+    | nil => exact hne rfl
+    | cons c cs =>
+      have hck : c.key ∈ keys l := by rw [← e]; exact hm c List.mem_cons_self
+      obtain ⟨x, hx, hxk⟩ := List.mem_map.1 hck
+      have h1 := coinAmt_of_mem nd hx
+      have h2 := coinAmt_of_mem (addCoins_nodup h nd) (hsub x hx)
+      have h3 := addCoins_coinAmt h x.key
+      rw [coinAmt_cons] at h3
+      have := hc c List.mem_cons_self
+      rw [hxk] at h1 h2 h3
+      simp only [if_true] at h3
+      omega
+
+theorem addCoin_changed {l r : List Coin} {c : Coin} (h : addCoin l c = some r)
+    (nd : (keys l).Nodup) (hc : c.amount ≠ 0) : subsetLen l r = false := by
+  have h' : addCoins l [c] = some r := by simp [addCoins, h]
+  exact addCoins_changed h' nd (by simp) (by simpa using hc)
+
+theorem addCoin_length_le {l r : List Coin} {c : Coin} (h : addCoin l c = some r) :
+    l.length ≤ r.length := by
+  have h' : addCoins l [c] = some r := by simp [addCoins, h]
+  exact addCoins_length_le h'
+
+/-- the deposit fits: per denomination (resp. for the token) stored plus deposited amount is a
+    `Uint128` -/
+def Funds.fits (g : GBal) : Funds → Prop
+  | .native cs => ∀ k, coinAmt g.native k + coinAmt cs k ≤ U128MAX
+  | .cw20 c => coinAmt g.cw20 c.key + c.amount ≤ U128MAX
+
+theorem addTokens_ne_none {g : GBal} {funds : Funds} (h : funds.fits g) :
+    addTokens g funds ≠ none := by
+  cases funds with
+  | native cs =>
+    simp only [addTokens]
+    have := addCoins_ne_none (l := g.native) (cs := cs) h
+    split
+    · contradiction
+    · simp
+  | cw20 c =>
+    simp only [addTokens]
+    have := addCoin_ne_none (l := g.cw20) (c := c) h
+    split
+    · contradiction
+    · simp
+
+/-- `add_tokens` of a `normalized_check`-ed deposit onto a well-formed balance is well-formed
+    (an existing key is merged, both summands are non-zero) -/
+theorem addTokens_wf {g nf : GBal} {funds : Funds} (wf : wfBal g = true)
+    (hn : normalizedCheck funds = true) (h : addTokens g funds = some nf) : wfBal nf = true := by
+  rw [wfBal_iff] at wf ⊢
+  obtain ⟨w1, w2, w3, w4, w5, w6⟩ := wf
+  cases funds with
+  | native cs =>
+    simp only [addTokens] at h
+    split at h
+    · cases h
+    · next n hn' =>
+      cases h
+      simp only [normalizedCheck, Bool.and_eq_true, decide_eq_true_eq, allNonzero_iff] at hn
+      refine ⟨addCoins_nonzero hn' w1 hn.1.2, w2, ?_, addCoins_nodup hn' w4, w5, w6⟩
+      have := addCoins_length_le hn'
+      simp only [GBal.count] at w3 ⊢
+      omega
+  | cw20 c =>
+    simp only [addTokens] at h
+    split at h
+    · cases h
+    · next n hn' =>
+      cases h
+      simp only [normalizedCheck, decide_eq_true_eq] at hn
+      refine ⟨w1, addCoin_nonzero hn' w2 hn, ?_, w4, addCoin_nodup hn' w5, w6⟩
+      have := addCoin_length_le hn'
+      simp only [GBal.count] at w3 ⊢
+      omega
+
+/-- `genbal_cmp(old, new)` fails after every accepted deposit -/
+theorem addTokens_changed {g nf : GBal} {funds : Funds} (wf : wfBal g = true)
+    (hn : normalizedCheck funds = true) (h : addTokens g funds = some nf) :
+    genbalCmp g nf = false := by
+  rw [wfBal_iff] at wf
+  obtain ⟨w1, w2, w3, w4, w5, w6⟩ := wf
+  cases funds with
+  | native cs =>
+    simp only [addTokens] at h
+    split at h
+    · cases h
+    · next n hn' =>
+      cases h
+      simp only [normalizedCheck, Bool.and_eq_true, decide_eq_true_eq, allNonzero_iff] at hn
+      have hne : cs ≠ [] := by
+        intro e; subst e; simp at hn
+      simp [genbalCmp, addCoins_changed hn' w4 hne hn.1.2]
+  | cw20 c =>
+    simp only [addTokens] at h
+    split at h
+    · cases h
+    · next n hn' =>
+      cases h
+      simp only [normalizedCheck, decide_eq_true_eq] at hn
+      simp [genbalCmp, addCoin_changed hn' w5 hn]
+
+theorem addNft_changed (g : GBal) (n : Nft) : genbalCmp g (addNft g n) = false := by
+  simp [genbalCmp, subsetLen, addNft]
+
+/-- `check_valid` after `add_nft`: 25 cap and the NFT is new -/
+theorem checkValid_addNft {g : GBal} (wf : wfBal g = true) (n : Nft) :
+    checkValid (addNft g n) = true ↔ g.count + 1 ≤ MAX_ASSETS ∧ n ∉ g.nfts := by
+  rw [checkValid_iff, wfBal_iff]
+  rw [wfBal_iff] at wf
+  obtain ⟨w1, w2, w3, w4, w5, w6⟩ := wf
+  have hc : (addNft g n).count = g.count + 1 := by simp [addNft, GBal.count]; omega
+  rw [hc]
+  simp only [addNft, List.nodup_append]
+  constructor
+  · rintro ⟨⟨_, _, _, _, _, _, _, hd⟩, hcap⟩
+    refine ⟨hcap, ?_⟩
+    intro hm
+    exact hd n hm n (by simp) rfl
+  · rintro ⟨hcap, hnm⟩
+    refine ⟨⟨w1, w2, by omega, w4, w5, w6, by simp, ?_⟩, hcap⟩
+    intro a ha b hb
+    simp only [List.mem_singleton] at hb
+    subst hb
+    intro e; subst e; exact hnm ha
+
+/-! ### times, fees, royalties -/
+
+theorem wfTimes_finalize (now s : Nat) (h1 : MIN_LIFE ≤ s) (h2 : s ≤ TWO_WEEKS) :
+    wfTimes (some now) (some (now + s * NS)) = true := by
+  simp only [wfTimes, Bool.and_eq_true, decide_eq_true_eq]
+  have e : now + s * NS - now = s * NS := by omega
+  have hNS : 0 < NS := by decide
+  rw [e, Nat.mul_div_cancel _ hNS]
+  exact ⟨⟨⟨by omega, Nat.mul_mod_left _ _⟩, h1⟩, h2⟩
+
+theorem sideRoyalties_wf {env : Env} {ra : Nat} {cols : List Nat} {bal g : GBal} {ms : List OutMsg}
+    {s : Nat} (wf : wfBal bal = true) (h : sideRoyalties env ra cols bal = .ok g ms s) :
+    wfBal g = true := by
+  unfold sideRoyalties at h
+  split at h
+  · cases h; exact wf
+  · split at h
+    · cases h
+    · exact C11_wf wf h
+
+theorem calcFeeCoin_wfFee {env : Env} {fk : FeeKind} {g g' : GBal} {fee : Option Coin}
+    (nd : (keys g.native).Nodup) (h : calcFeeCoin (feeDenomOf env fk) g = some (fee, g')) :
+    wfFee env.junoD env.usdcD fee = true := by
+  cases fee with
+  | none => rfl
+  | some f =>
+    obtain ⟨hk, ha⟩ := (C17_fee_floor nd h).2.2 f rfl
+    cases fk <;> simp [wfFee, feeDenomOf, ha] at hk ⊢ <;> simp [hk]
+
+/-! ## 4. the shapes of a state change -/
+
+/-- The ways an accepted message changes the marketplace record (`j`, `u`: the two fee
+    denominations): (a) a new record at a fresh id, (b) a record replaced by one with the same
+    creator and id (owner), (c) a key erased, (d) the purchase, and the fee cycle.  Each shape
+    carries what is needed to keep `IdsInv` and `WFInv`. -/
+inductive Shape (j u : Nat) (m : Market) : Market → Prop
+  | bIns (c id : Nat) (b : Bucket) (hf : id ∉ m.bucketUsed) (ho : b.owner = c)
+      (hw : wfBucket j u (c, id) b = true) :
+      Shape j u m { m with buckets := ainsert (c, id) b m.buckets, bucketUsed := id :: m.bucketUsed }
+  | bRep (k : Nat × Nat) (b b' : Bucket) (hl : alookup k m.buckets = some b)
+      (ho : b'.owner = b.owner) (hw : wfBucket j u k b = true → wfBucket j u k b' = true) :
+      Shape j u m { m with buckets := ainsert k b' m.buckets }
+  | bDel (k : Nat × Nat) : Shape j u m { m with buckets := aerase k m.buckets }
+  | lIns (c id : Nat) (l : Listing) (hf : id ∉ m.listingUsed) (hc : l.creator = c) (hid : l.id = id)
+      (hw : wfListing j u (c, id) l = true) :
+      Shape j u m { m with listings := ainsert (c, id) l m.listings,
+                           listingUsed := id :: m.listingUsed }
+  | lRep (k : Nat × Nat) (l l' : Listing) (hl : alookup k m.listings = some l)
+      (hc : l'.creator = l.creator) (hid : l'.id = l.id)
+      (hw : wfListing j u k l = true → wfListing j u k l' = true) :
+      Shape j u m { m with listings := ainsert k l' m.listings }
+  | lDel (k : Nat × Nat) : Shape j u m { m with listings := aerase k m.listings }
+  | trade (kl : Nat × Nat) (l l' : Listing) (kb : Nat × Nat) (b b' : Bucket) (c c' : Nat)
+      (hl : (kl, l) ∈ m.listings) (hb : alookup kb m.buckets = some b)
+      (hid : l'.id = l.id) (hc : l'.creator = c) (ho : b'.owner = c')
+      (hw : wfListing j u kl l = true → wfBucket j u kb b = true →
+        wfListing j u (c, l.id) l' = true ∧ wfBucket j u (c', kb.2) b' = true) :
+      Shape j u m { m with listings := ainsert (c, l.id) l' (aerase (l.creator, l.id) m.listings),
+                           buckets := ainsert (c', kb.2) b' (aerase kb m.buckets) }
+  | fee (fk : FeeKind) (fs : Nat) : Shape j u m { m with feeKind := fk, feeSince := fs }
+
+theorem Shape.ids {j u : Nat} {m m' : Market} (s : Shape j u m m') (h : IdsInv m) : IdsInv m' := by
+  rw [IdsInv_iff] at h ⊢
+  obtain ⟨hl, hb⟩ := h
+  cases s with
+  | bIns c id b hf ho hw => exact ⟨hl, hb.insert hf ho⟩
+  | bRep k b b' hlk ho hw => exact ⟨hl, hb.replace hlk ho⟩
+  | bDel k => exact ⟨hl, hb.erase k⟩
+  | lIns c id l hf hc hid hw => exact ⟨hl.insert hf hc hid, hb⟩
+  | lRep k l l' hlk hc hid hw => exact ⟨hl.replace hlk hc hid, hb⟩
+  | lDel k => exact ⟨hl.erase k, hb⟩
+  | trade kl l l' kb b b' c c' hml hlb hid hc ho hw =>
+    have hk : kl = (l.creator, l.id) := hl.filed _ hml
+    subst hk
+    exact ⟨hl.move hml hc hid, hb.move (alookup_some_mem hlb) ho⟩
+  | fee fk fs => exact ⟨hl, hb⟩
+
+theorem Shape.wf {j u : Nat} {m m' : Market} (s : Shape j u m m') (h : WFInv j u m) :
+    WFInv j u m' := by
+  cases s with
+  | bIns c id b hf ho hw =>
+    exact ⟨h.lwf, forall_mem_ainsert (P := fun p => wfBucket j u p.1 p.2 = true) h.bwf hw⟩
+  | bRep k b b' hlk ho hw =>
+    exact ⟨h.lwf, forall_mem_ainsert (P := fun p => wfBucket j u p.1 p.2 = true) h.bwf
+      (hw (h.bwf _ (alookup_some_mem hlk)))⟩
+  | bDel k => exact ⟨h.lwf, forall_mem_aerase (P := fun p => wfBucket j u p.1 p.2 = true) h.bwf k⟩
+  | lIns c id l hf hc hid hw =>
+    exact ⟨forall_mem_ainsert (P := fun p => wfListing j u p.1 p.2 = true) h.lwf hw, h.bwf⟩
+  | lRep k l l' hlk hc hid hw =>
+    exact ⟨forall_mem_ainsert (P := fun p => wfListing j u p.1 p.2 = true) h.lwf
+      (hw (h.lwf _ (alookup_some_mem hlk))), h.bwf⟩
+  | lDel k => exact ⟨forall_mem_aerase (P := fun p => wfListing j u p.1 p.2 = true) h.lwf k, h.bwf⟩
+  | trade kl l l' kb b b' c c' hml hlb hid hc ho hw =>
+    have := hw (h.lwf _ hml) (h.bwf _ (alookup_some_mem hlb))
+    exact ⟨forall_mem_ainsert (P := fun p => wfListing j u p.1 p.2 = true)
+        (forall_mem_aerase (P := fun p => wfListing j u p.1 p.2 = true) h.lwf _) this.1,
+      forall_mem_ainsert (P := fun p => wfBucket j u p.1 p.2 = true)
+        (forall_mem_aerase (P := fun p => wfBucket j u p.1 p.2 = true) h.bwf _) this.2⟩
+  | fee fk fs => exact ⟨h.lwf, h.bwf⟩
+
+/-- the id logs only grow -/
+theorem Shape.used_mono {j u : Nat} {m m' : Market} (s : Shape j u m m') :
+    (∀ i ∈ m.listingUsed, i ∈ m'.listingUsed) ∧ (∀ i ∈ m.bucketUsed, i ∈ m'.bucketUsed) := by
+  cases s <;> refine ⟨fun i hi => ?_, fun i hi => ?_⟩ <;>
+    first | exact hi | exact List.mem_cons_of_mem _ hi
+
+/-! ## 5. one shape lemma per handler -/
+
+section handlers
+variable {j u : Nat} {m m' : Market} {out : List OutMsg}
+
+theorem createBucket_shape {funds : Funds} {creator id : Nat}
+    (h : createBucket m funds creator id = .ok (m', out)) : Shape j u m m' := by
+  unfold createBucket at h
+  split at h
+  · cases h
+  split at h
+  · cases h
+  rename_i hfresh
+  split at h
+  · cases h
+  split at h
+  · cases h
+  rename_i hn
+  simp only [Except.ok.injEq, Prod.mk.injEq] at h
+  obtain ⟨rfl, _⟩ := h
+  have hn' : normalizedCheck funds = true := by simpa using hn
+  exact Shape.bIns creator id _ hfresh rfl (by simp [wfBucket, wfFee, wfBal_fromBalance hn'])
+
+theorem createBucketNft_shape {user : Nat} {nft : Nft} {id : Nat}
+    (h : createBucketNft m user nft id = .ok (m', out)) : Shape j u m m' := by
+  unfold createBucketNft at h
+  split at h
+  · cases h
+  split at h
+  · cases h
+  rename_i hfresh
+  split at h
+  · cases h
+  simp only [Except.ok.injEq, Prod.mk.injEq] at h
+  obtain ⟨rfl, _⟩ := h
+  exact Shape.bIns user id _ hfresh rfl (by simp [wfBucket, wfFee, wfBal_fromNft])
+
+theorem wfBucket_funds {k : Nat × Nat} {b : Bucket} {nf : GBal}
+    (hnf : wfBal b.funds = true → wfBal nf = true) :
+    wfBucket j u k b = true → wfBucket j u k { b with funds := nf } = true := by
+  simp only [wfBucket, Bool.and_eq_true, decide_eq_true_eq]
+  rintro ⟨⟨a, b⟩, c⟩
+  exact ⟨⟨a, hnf b⟩, c⟩
+
+theorem addToBucket_shape {funds : Funds} {sender id : Nat}
+    (h : addToBucket m funds sender id = .ok (m', out)) : Shape j u m m' := by
+  unfold addToBucket at h
+  split at h
+  · cases h
+  split at h
+  · cases h
+  rename_i b hb
+  split at h
+  · cases h
+  split at h
+  · cases h
+  rename_i nf hnf
+  split at h
+  · cases h
+  split at h
+  · cases h
+  rename_i hv
+  simp only [Except.ok.injEq, Prod.mk.injEq] at h
+  obtain ⟨rfl, _⟩ := h
+  have hv' : checkValid nf = true := by simpa using hv
+  exact Shape.bRep (sender, id) b _ hb rfl (wfBucket_funds fun _ => wfBal_of_checkValid hv')
+
+theorem addToBucketNft_shape {user : Nat} {nft : Nft} {id : Nat}
+    (h : addToBucketNft m user nft id = .ok (m', out)) : Shape j u m m' := by
+  unfold addToBucketNft at h
+  split at h
+  · cases h
+  rename_i b hb
+  split at h
+  · cases h
+  dsimp only at h
+  split at h
+  · cases h
+  split at h
+  · cases h
+  rename_i hv
+  simp only [Except.ok.injEq, Prod.mk.injEq] at h
+  obtain ⟨rfl, _⟩ := h
+  have hv' : checkValid (addNft b.funds nft) = true := by simpa using hv
+  exact Shape.bRep (user, id) b _ hb rfl (wfBucket_funds fun _ => wfBal_of_checkValid hv')
+
+theorem withdrawBucket_shape {env : Env} {user id : Nat}
+    (h : withdrawBucket m env user id = .ok (m', out)) : Shape j u m m' := by
+  unfold withdrawBucket at h
+  split at h
+  · cases h
+  split at h
+  · cases h
+  simp only [Except.ok.injEq, Prod.mk.injEq] at h
+  obtain ⟨rfl, _⟩ := h
+  exact Shape.bDel _
+
+theorem createListing_shape {user : Nat} {funds : Funds} {c : CreateMsg} {id : Nat}
+    (h : createListing m user funds c id = .ok (m', out)) : Shape j u m m' := by
+  unfold createListing at h
+  split at h
+  · cases h
+  split at h
+  · cases h
+  rename_i hn
+  split at h
+  · cases h
+  rename_i hfresh
+  split at h
+  · cases h
+  split at h
+  · cases h
+  rename_i wl hwl
+  split at h
+  · cases h
+  rename_i ask hask
+  simp only [Except.ok.injEq, Prod.mk.injEq] at h
+  obtain ⟨rfl, _⟩ := h
+  have hn' : normalizedCheck funds = true := by simpa using hn
+  exact Shape.lIns user id _ hfresh rfl rfl
+    (by simp [wfListing, newListing, wfAsk, validateAsk_checkValid hask, wfBal_fromBalance hn'])
+
+theorem createListingNft_shape {user : Nat} {nft : Nft} {c : CreateMsg} {id : Nat}
+    (h : createListingNft m user nft c id = .ok (m', out)) : Shape j u m m' := by
+  unfold createListingNft at h
+  split at h
+  · cases h
+  split at h
+  · cases h
+  rename_i hfresh
+  split at h
+  · cases h
+  split at h
+  · cases h
+  rename_i wl hwl
+  split at h
+  · cases h
+  rename_i ask hask
+  simp only [Except.ok.injEq, Prod.mk.injEq] at h
+  obtain ⟨rfl, _⟩ := h
+  exact Shape.lIns user id _ hfresh rfl rfl
+    (by simp [wfListing, newListing, wfAsk, validateAsk_checkValid hask, wfBal_fromNft])
+
+theorem changeAsk_shape {user id : Nat} {newAsk : RawGBal}
+    (h : changeAsk m user id newAsk = .ok (m', out)) : Shape j u m m' := by
+  unfold changeAsk at h
+  split at h
+  · cases h
+  rename_i l hl
+  split at h
+  · cases h
+  split at h
+  · cases h
+  split at h
+  · cases h
+  split at h
+  · cases h
+  split at h
+  · cases h
+  rename_i ask hask
+  simp only [Except.ok.injEq, Prod.mk.injEq] at h
+  obtain ⟨rfl, _⟩ := h
+  refine Shape.lRep (user, id) l _ hl rfl rfl ?_
+  simp only [wfListing, wfAsk, Bool.and_eq_true, decide_eq_true_eq]
+  rintro ⟨⟨⟨a, b⟩, _⟩, d⟩
+  exact ⟨⟨⟨a, b⟩, validateAsk_checkValid hask⟩, d⟩
+
+theorem wfListing_forSale {k : Nat × Nat} {l : Listing} {nf : GBal}
+    (hnf : wfBal l.forSale = true → wfBal nf = true) :
+    wfListing j u k l = true → wfListing j u k { l with forSale := nf } = true := by
+  simp only [wfListing, Bool.and_eq_true, decide_eq_true_eq]
+  rintro ⟨⟨⟨a, b⟩, c⟩, d⟩
+  exact ⟨⟨⟨a, hnf b⟩, c⟩, d⟩
+
+theorem addToListing_shape {funds : Funds} {user id : Nat}
+    (h : addToListing m funds user id = .ok (m', out)) : Shape j u m m' := by
+  unfold addToListing at h
+  split at h
+  · cases h
+  rename_i hn
+  split at h
+  · cases h
+  rename_i l hl
+  split at h
+  · cases h
+  split at h
+  · cases h
+  split at h
+  · cases h
+  split at h
+  · cases h
+  rename_i nf hnf
+  split at h
+  · cases h
+  split at h
+  · cases h
+  simp only [Except.ok.injEq, Prod.mk.injEq] at h
+  obtain ⟨rfl, _⟩ := h
+  have hn' : normalizedCheck funds = true := by simpa using hn
+  exact Shape.lRep (user, id) l _ hl rfl rfl (wfListing_forSale fun w => addTokens_wf w hn' hnf)
+
+theorem addToListingNft_shape {user : Nat} {nft : Nft} {id : Nat}
+    (h : addToListingNft m user nft id = .ok (m', out)) : Shape j u m m' := by
+  unfold addToListingNft at h
+  split at h
+  · cases h
+  rename_i l hl
+  split at h
+  · cases h
+  split at h
+  · cases h
+  split at h
+  · cases h
+  dsimp only at h
+  split at h
+  · cases h
+  split at h
+  · cases h
+  rename_i hv
+  simp only [Except.ok.injEq, Prod.mk.injEq] at h
+  obtain ⟨rfl, _⟩ := h
+  have hv' : checkValid (addNft l.forSale nft) = true := by simpa using hv
+  exact Shape.lRep (user, id) l _ hl rfl rfl (wfListing_forSale fun _ => wfBal_of_checkValid hv')
+
+theorem finalize_shape {env : Env} {sender id seconds : Nat}
+    (h : finalize m env sender id seconds = .ok (m', out)) : Shape j u m m' := by
+  unfold finalize at h
+  split at h
+  · cases h
+  rename_i l hl
+  split at h
+  · cases h
+  split at h
+  · cases h
+  split at h
+  · cases h
+  rename_i hst
+  split at h
+  · cases h
+  split at h
+  · cases h
+  rename_i hsec
+  dsimp only at h
+  simp only [Except.ok.injEq, Prod.mk.injEq] at h
+  obtain ⟨rfl, _⟩ := h
+  refine Shape.lRep (sender, id) l _ hl rfl rfl ?_
+  have hst' : l.status = .preparing := by simpa using hst
+  simp only [wfListing, hst', Bool.and_eq_true, decide_eq_true_eq]
+  rintro ⟨⟨⟨a, b⟩, c⟩, ⟨⟨_, d⟩, e⟩⟩
+  exact ⟨⟨⟨a, b⟩, c⟩, ⟨wfTimes_finalize _ _ (by omega) (by omega), d⟩, e⟩
+
+theorem deleteListing_shape {env : Env} {sender id : Nat}
+    (h : deleteListing m env sender id = .ok (m', out)) : Shape j u m m' := by
+  unfold deleteListing at h
+  repeat' split at h
+  all_goals first
+    | (cases h; done)
+    | (simp only [Except.ok.injEq, Prod.mk.injEq] at h
+       obtain ⟨rfl, _⟩ := h
+       exact Shape.lDel _)
+
+theorem withdrawPurchased_shape {env : Env} {who lid : Nat}
+    (h : withdrawPurchased m env who lid = .ok (m', out)) : Shape j u m m' := by
+  unfold withdrawPurchased at h
+  split at h
+  · cases h
+  split at h
+  · cases h
+  split at h
+  · cases h
+  split at h
+  · cases h
+  simp only [Except.ok.injEq, Prod.mk.injEq] at h
+  obtain ⟨rfl, _⟩ := h
+  exact Shape.lDel _
+
+theorem cycleFee_shape {env : Env} (h : cycleFee m env = .ok (m', out)) : Shape j u m m' := by
+  unfold cycleFee at h
+  dsimp only at h
+  split at h
+  · cases h
+  simp only [Except.ok.injEq, Prod.mk.injEq] at h
+  obtain ⟨rfl, _⟩ := h
+  exact Shape.fee _ _
+
+end handlers
+
+theorem wfListing_closed {j u : Nat} {k : Nat × Nat} {l : Listing} (hk : k = (l.creator, l.id))
+    (hs : wfBal l.forSale = true) (ha : wfAsk l.ask = true) (hst : l.status = .closed)
+    (ht : wfTimes l.finalizedAt l.expiresAt = true) (hc : l.claimant = some l.creator)
+    (hf : wfFee j u l.fee = true) : wfListing j u k l = true := by
+  simp [wfListing, hk, hs, ha, hst, ht, hc, hf]
+
+theorem wfBucket_mk {j u : Nat} {k : Nat × Nat} {b : Bucket} (hk : k.1 = b.owner)
+    (hs : wfBal b.funds = true) (hf : wfFee j u b.fee = true) : wfBucket j u k b = true := by
+  simp [wfBucket, hk, hs, hf]
+
+/-- the purchase: the listing found under `lid` is re-filed under `(buyer, lid)`, the paying
+    bucket under `(seller, bid)`; both stay well-formed -/
+theorem buy_shape {m m' : Market} {out : List OutMsg} {env : Env} {buyer lid bid : Nat}
+    (h : buy m env buyer lid bid = .ok (m', out)) : Shape env.junoD env.usdcD m m' := by
+  unfold buy at h
+  split at h
+  · cases h
+  rename_i b hb
+  split at h
+  · cases h
+  rename_i k l hl
+  obtain ⟨hid, hmem⟩ := findById_some hl
+  dsimp only at hid
+  subst hid
+  repeat' split at h
+  all_goals first | (cases h; done) | skip
+  all_goals
+    have hst := ‹¬ l.status ≠ Status.finalized›
+    have hf1 := ‹calcFeeCoin _ l.forSale = some _›
+    have hf2 := ‹calcFeeCoin _ b.funds = some _›
+    have hr1 := ‹sideRoyalties _ _ (collections l.forSale) _ = RoyRes.ok _ _ _›
+    have hr2 := ‹sideRoyalties _ _ (collections b.funds) _ = RoyRes.ok _ _ _›
+    have hst' : l.status = .finalized := by simpa using hst
+    simp only [Except.ok.injEq, Prod.mk.injEq] at h
+    obtain ⟨rfl, _⟩ := h
+    refine Shape.trade k l _ (buyer, bid) b _ buyer l.creator hmem hb rfl rfl rfl ?_
+    intro w1 w2
+    simp only [wfListing, hst', Bool.and_eq_true, decide_eq_true_eq] at w1
+    obtain ⟨⟨⟨_, wfs⟩, wa⟩, ⟨wt, _⟩, _⟩ := w1
+    simp only [wfBucket, Bool.and_eq_true, decide_eq_true_eq] at w2
+    obtain ⟨⟨_, wfb⟩, _⟩ := w2
+    have nd1 := ((wfBal_iff _).1 wfs).2.2.2.1
+    have nd2 := ((wfBal_iff _).1 wfb).2.2.2.1
+    exact ⟨wfListing_closed rfl (sideRoyalties_wf (C17_fee_wf wfs hf1) hr2) wa rfl wt rfl
+        (calcFeeCoin_wfFee nd1 hf1),
+      wfBucket_mk rfl (sideRoyalties_wf (C17_fee_wf wfb hf2) hr1) (calcFeeCoin_wfFee nd2 hf2)⟩
+
+theorem receive_shape {j u : Nat} {m m' : Market} {out : List OutMsg} {env : Env} {caller : Nat}
+    {funds : List Coin} {sender : RawAddr} {amount : Nat} {inner : Option Inner}
+    (h : receive m env caller funds sender amount inner = .ok (m', out)) : Shape j u m m' := by
+  unfold receive at h
+  repeat' split at h
+  all_goals first
+    | contradiction
+    | exact createListing_shape h
+    | exact addToListing_shape h
+    | exact createBucket_shape h
+    | exact addToBucket_shape h
+
+theorem receiveNft_shape {j u : Nat} {m m' : Market} {out : List OutMsg} {env : Env} {caller : Nat}
+    {funds : List Coin} {sender : RawAddr} {tid : Nat} {inner : Option Inner}
+    (h : receiveNft m env caller funds sender tid inner = .ok (m', out)) : Shape j u m m' := by
+  unfold receiveNft at h
+  repeat' split at h
+  all_goals first
+    | contradiction
+    | exact createListingNft_shape h
+    | exact addToListingNft_shape h
+    | exact createBucketNft_shape h
+    | exact addToBucketNft_shape h
+
+/-- every accepted message changes the marketplace record in one of the shapes -/
+theorem execute_shape {m m' : Market} {env : Env} {sender : Nat} {funds : List Coin} {msg : ExecMsg}
+    {out : List OutMsg} (h : execute m env sender funds msg = .ok (m', out)) :
+    Shape env.junoD env.usdcD m m' := by
+  unfold execute at h
+  split at h
+  · contradiction
+  · cases msg with
+    | feeCycle => exact cycleFee_shape h
+    | createListing id c => exact createListing_shape h
+    | addToListing id => exact addToListing_shape h
+    | changeAsk id ask => exact changeAsk_shape h
+    | finalize id s => exact finalize_shape h
+    | deleteListing id => exact deleteListing_shape h
+    | createBucket id => exact createBucket_shape h
+    | addToBucket id => exact addToBucket_shape h
+    | removeBucket id => exact withdrawBucket_shape h
+    | buy lid bid => exact buy_shape h
+    | withdrawPurchased lid => exact withdrawPurchased_shape h
+    | receive s a i => exact receive_shape h
+    | receiveNft s t i => exact receiveNft_shape h
+
+/-! ## 6. lift to `step` / `run` -/
+
+/-- a marketplace-record predicate that every accepted `execute` preserves (given the
+    environment of the world) is preserved by every operation -/
+theorem stepF_mkt_cases (fail : Nat → Bool) (w : World) (op : Op) :
+    (stepF fail w op).1.mkt = w.mkt ∨
+    ∃ c f msg m' msgs, op.asExec = some (c, f, msg) ∧
+      execute w.mkt w.env c f msg = .ok (m', msgs) ∧ (stepF fail w op).1.mkt = m' ∧
+      (stepF fail w op).2.ok = true := by
+  cases ho : op.asExec with
+  | some t =>
+    obtain ⟨c, f, msg⟩ := t
+    rcases stepF_market (fail := fail) (w := w) ho with ⟨e, h⟩ | ⟨m', msgs, w2, hx, hm, _, h⟩
+    · rw [h]; exact .inl rfl
+    · rw [h]; exact .inr ⟨c, f, msg, m', msgs, rfl, hx, hm, rfl⟩
+  | none => exact .inl (stepF_mkt_of_asExec_none ho)
+
+/-- no operation changes the two fee denominations of the world -/
+theorem stepF_denoms (fail : Nat → Bool) (w : World) (op : Op) :
+    (stepF fail w op).1.junoD = w.junoD ∧ (stepF fail w op).1.usdcD = w.usdcD := by
+  cases ho : op.asExec with
+  | some t =>
+    obtain ⟨c, f, msg⟩ := t
+    rcases stepF_market (fail := fail) (w := w) ho with ⟨e, h⟩ | ⟨m', msgs, w2, _, _, hc, h⟩
+    · rw [h]; exact ⟨rfl, rfl⟩
+    · rw [h]; exact ⟨hc.junoD, hc.usdcD⟩
+  | none =>
+    cases op with
+    | exec s fu m => simp [Op.asExec] at ho
+    | send20 t s a i => simp [Op.asExec] at ho
+    | send721 co s t i => simp [Op.asExec] at ho
+    | royalty s m =>
+      rcases stepF_royalty fail w s m with ⟨e, _, h⟩ | ⟨r, _, h⟩ <;> rw [h] <;> exact ⟨rfl, rfl⟩
+    | setAdmin s c n =>
+      simp only [stepF]
+      repeat' split
+      all_goals exact ⟨rfl, rfl⟩
+    | advance a b => exact ⟨rfl, rfl⟩
+
+theorem run_denoms (w : World) (ops : List Op) :
+    (run w ops).junoD = w.junoD ∧ (run w ops).usdcD = w.usdcD := by
+  induction ops generalizing w with
+  | nil => exact ⟨rfl, rfl⟩
+  | cons op ops ih =>
+    have h1 := ih (step w op).1
+    have h2 := stepF_denoms noFault w op
+    simp only [run]
+    exact ⟨h1.1.trans h2.1, h1.2.trans h2.2⟩
+
+/-- a failed operation leaves the whole world as it was -/
+theorem stepF_failed_eq {fail : Nat → Bool} {w : World} {op : Op} {c : Nat} {f : List Coin}
+    {msg : ExecMsg} (ho : op.asExec = some (c, f, msg)) (hok : (stepF fail w op).2.ok = false) :
+    (stepF fail w op).1 = w := by
+  rcases stepF_market (fail := fail) (w := w) ho with ⟨e, h⟩ | ⟨m', msgs, w2, _, _, _, h⟩
+  · rw [h]
+  · rw [h] at hok; cases hok
+
+/-! ## 7. creation: which id is logged -/
+
+theorem createListing_fresh {m m' : Market} {out : List OutMsg} {user : Nat} {funds : Funds}
+    {c : CreateMsg} {id : Nat} (h : createListing m user funds c id = .ok (m', out)) :
+    id < MAX_SAFE_INT ∧ id ∉ m.listingUsed ∧ m'.listingUsed = id :: m.listingUsed := by
+  unfold createListing at h
+  repeat' split at h
+  all_goals first
+    | (cases h; done)
+    | (simp only [Except.ok.injEq, Prod.mk.injEq] at h
+       obtain ⟨rfl, _⟩ := h
+       exact ⟨by omega, by assumption, rfl⟩)
+
+theorem createListingNft_fresh {m m' : Market} {out : List OutMsg} {user : Nat} {nft : Nft}
+    {c : CreateMsg} {id : Nat} (h : createListingNft m user nft c id = .ok (m', out)) :
+    id < MAX_SAFE_INT ∧ id ∉ m.listingUsed ∧ m'.listingUsed = id :: m.listingUsed := by
+  unfold createListingNft at h
+  repeat' split at h
+  all_goals first
+    | (cases h; done)
+    | (simp only [Except.ok.injEq, Prod.mk.injEq] at h
+       obtain ⟨rfl, _⟩ := h
+       exact ⟨by omega, by assumption, rfl⟩)
+
+theorem createBucket_fresh {m m' : Market} {out : List OutMsg} {funds : Funds} {creator id : Nat}
+    (h : createBucket m funds creator id = .ok (m', out)) :
+    id < MAX_SAFE_INT ∧ id ∉ m.bucketUsed ∧ m'.bucketUsed = id :: m.bucketUsed := by
+  unfold createBucket at h
+  repeat' split at h
+  all_goals first
+    | (cases h; done)
+    | (simp only [Except.ok.injEq, Prod.mk.injEq] at h
+       obtain ⟨rfl, _⟩ := h
+       exact ⟨by omega, by assumption, rfl⟩)
+
+theorem createBucketNft_fresh {m m' : Market} {out : List OutMsg} {user : Nat} {nft : Nft} {id : Nat}
+    (h : createBucketNft m user nft id = .ok (m', out)) :
+    id < MAX_SAFE_INT ∧ id ∉ m.bucketUsed ∧ m'.bucketUsed = id :: m.bucketUsed := by
+  unfold createBucketNft at h
+  repeat' split at h
+  all_goals first
+    | (cases h; done)
+    | (simp only [Except.ok.injEq, Prod.mk.injEq] at h
+       obtain ⟨rfl, _⟩ := h
+       exact ⟨by omega, by assumption, rfl⟩)
+
+/-- the listing id a message asks to create (directly, or through the CW20 / CW721 hook) -/
+def ExecMsg.createsListing : ExecMsg → Option Nat
+  | .createListing id _ => some id
+  | .receive _ _ (some (.createListing id _)) => some id
+  | .receiveNft _ _ (some (.createListing id _)) => some id
+  | _ => none
+
+/-- the bucket id a message asks to create (directly, or through the CW20 / CW721 hook) -/
+def ExecMsg.createsBucket : ExecMsg → Option Nat
+  | .createBucket id => some id
+  | .receive _ _ (some (.createBucket id)) => some id
+  | .receiveNft _ _ (some (.createBucket id)) => some id
+  | _ => none
+
+/-- the listing / bucket id an operation asks to create -/
+def Op.createsListing (op : Op) : Option Nat :=
+  match op.asExec with
+  | some (_, _, msg) => msg.createsListing
+  | none => none
+
+def Op.createsBucket (op : Op) : Option Nat :=
+  match op.asExec with
+  | some (_, _, msg) => msg.createsBucket
+  | none => none
+
+theorem execute_createsListing {m m' : Market} {env : Env} {s : Nat} {f : List Coin} {msg : ExecMsg}
+    {out : List OutMsg} {id : Nat} (hc : msg.createsListing = some id)
+    (h : execute m env s f msg = .ok (m', out)) :
+    id < MAX_SAFE_INT ∧ id ∉ m.listingUsed ∧ m'.listingUsed = id :: m.listingUsed := by
+  unfold execute at h
+  split at h
+  · cases h
+  cases msg with
+  | createListing id' c =>
+    simp only [ExecMsg.createsListing, Option.some.injEq] at hc; subst hc
+    exact createListing_fresh h
+  | receive sd a i =>
+    cases i with
+    | none => simp [ExecMsg.createsListing] at hc
+    | some im =>
+      cases im with
+      | createListing id' c =>
+        simp only [ExecMsg.createsListing, Option.some.injEq] at hc; subst hc
+        dsimp only at h
+        unfold receive at h
+        dsimp only at h
+        repeat' split at h
+        all_goals first
+          | (cases h; done)
+          | exact createListing_fresh h
+      | addToListing _ => simp [ExecMsg.createsListing] at hc
+      | createBucket _ => simp [ExecMsg.createsListing] at hc
+      | addToBucket _ => simp [ExecMsg.createsListing] at hc
+  | receiveNft sd t i =>
+    cases i with
+    | none => simp [ExecMsg.createsListing] at hc
+    | some im =>
+      cases im with
+      | createListing id' c =>
+        simp only [ExecMsg.createsListing, Option.some.injEq] at hc; subst hc
+        dsimp only at h
+        unfold receiveNft at h
+        dsimp only at h
+        repeat' split at h
+        all_goals first
+          | (cases h; done)
+          | exact createListingNft_fresh h
+      | addToListing _ => simp [ExecMsg.createsListing] at hc
+      | createBucket _ => simp [ExecMsg.createsListing] at hc
+      | addToBucket _ => simp [ExecMsg.createsListing] at hc
+  | _ => simp [ExecMsg.createsListing] at hc
+
+theorem execute_createsBucket {m m' : Market} {env : Env} {s : Nat} {f : List Coin} {msg : ExecMsg}
+    {out : List OutMsg} {id : Nat} (hc : msg.createsBucket = some id)
+    (h : execute m env s f msg = .ok (m', out)) :
+    id < MAX_SAFE_INT ∧ id ∉ m.bucketUsed ∧ m'.bucketUsed = id :: m.bucketUsed := by
+  unfold execute at h
+  split at h
+  · cases h
+  cases msg with
+  | createBucket id' =>
+    simp only [ExecMsg.createsBucket, Option.some.injEq] at hc; subst hc
+    exact createBucket_fresh h
+  | receive sd a i =>
+    cases i with
+    | none => simp [ExecMsg.createsBucket] at hc
+    | some im =>
+      cases im with
+      | createBucket id' =>
+        simp only [ExecMsg.createsBucket, Option.some.injEq] at hc; subst hc
+        dsimp only at h
+        unfold receive at h
+        dsimp only at h
+        repeat' split at h
+        all_goals first
+          | (cases h; done)
+          | exact createBucket_fresh h
+      | addToListing _ => simp [ExecMsg.createsBucket] at hc
+      | createListing _ _ => simp [ExecMsg.createsBucket] at hc
+      | addToBucket _ => simp [ExecMsg.createsBucket] at hc
+  | receiveNft sd t i =>
+    cases i with
+    | none => simp [ExecMsg.createsBucket] at hc
+    | some im =>
+      cases im with
+      | createBucket id' =>
+        simp only [ExecMsg.createsBucket, Option.some.injEq] at hc; subst hc
+        dsimp only at h
+        unfold receiveNft at h
+        dsimp only at h
+        repeat' split at h
+        all_goals first
+          | (cases h; done)
+          | exact createBucketNft_fresh h
+      | addToListing _ => simp [ExecMsg.createsBucket] at hc
+      | createListing _ _ => simp [ExecMsg.createsBucket] at hc
+      | addToBucket _ => simp [ExecMsg.createsBucket] at hc
+  | _ => simp [ExecMsg.createsBucket] at hc
+
+/-! ## 8. no resurrection: a logged id without a live record stays without one -/
+
+theorem Shape.live_l {j u : Nat} {m m' : Market} (s : Shape j u m m') {i : Nat}
+    (hu : i ∈ m.listingUsed) (hl : ∃ p ∈ m'.listings, p.2.id = i) : ∃ p ∈ m.listings, p.2.id = i := by
+  obtain ⟨p, hp, hi⟩ := hl
+  cases s with
+  | bIns c id b hf ho hw => exact ⟨p, hp, hi⟩
+  | bRep k b b' hlk ho hw => exact ⟨p, hp, hi⟩
+  | bDel k => exact ⟨p, hp, hi⟩
+  | lIns c id l hf hc hid hw =>
+    rcases mem_ainsert.1 hp with rfl | ⟨hp, _⟩
+    · exfalso; apply hf; rw [← hid]; simpa using hi ▸ hu
+    · exact ⟨p, hp, hi⟩
+  | lRep k l l' hlk hc hid hw =>
+    rcases mem_ainsert.1 hp with rfl | ⟨hp, _⟩
+    · exact ⟨(k, l), alookup_some_mem hlk, by rw [← hi]; exact hid.symm⟩
+    · exact ⟨p, hp, hi⟩
+  | lDel k => exact ⟨p, (mem_aerase.1 hp).1, hi⟩
+  | trade kl l l' kb b b' c c' hml hlb hid hc ho hw =>
+    rcases mem_ainsert.1 hp with rfl | ⟨hp, _⟩
+    · exact ⟨(kl, l), hml, by rw [← hi]; exact hid.symm⟩
+    · exact ⟨p, (mem_aerase.1 hp).1, hi⟩
+  | fee fk fs => exact ⟨p, hp, hi⟩
+
+theorem Shape.live_b {j u : Nat} {m m' : Market} (s : Shape j u m m') {i : Nat}
+    (hu : i ∈ m.bucketUsed) (hl : ∃ p ∈ m'.buckets, p.1.2 = i) : ∃ p ∈ m.buckets, p.1.2 = i := by
+  obtain ⟨p, hp, hi⟩ := hl
+  cases s with
+  | bIns c id b hf ho hw =>
+    rcases mem_ainsert.1 hp with rfl | ⟨hp, _⟩
+    · dsimp only at hi; subst hi; exact absurd hu hf
+    · exact ⟨p, hp, hi⟩
+  | bRep k b b' hlk ho hw =>
+    rcases mem_ainsert.1 hp with rfl | ⟨hp, _⟩
+    · exact ⟨(k, b), alookup_some_mem hlk, hi⟩
+    · exact ⟨p, hp, hi⟩
+  | bDel k => exact ⟨p, (mem_aerase.1 hp).1, hi⟩
+  | lIns c id l hf hc hid hw => exact ⟨p, hp, hi⟩
+  | lRep k l l' hlk hc hid hw => exact ⟨p, hp, hi⟩
+  | lDel k => exact ⟨p, hp, hi⟩
+  | trade kl l l' kb b b' c c' hml hlb hid hc ho hw =>
+    rcases mem_ainsert.1 hp with rfl | ⟨hp, _⟩
+    · exact ⟨(kb, b), alookup_some_mem hlb, hi⟩
+    · exact ⟨p, (mem_aerase.1 hp).1, hi⟩
+  | fee fk fs => exact ⟨p, hp, hi⟩
+
+/-! ## 9. `Nodup` of a projection -/
+
+theorem nodup_map_of_inj {α β γ : Type} {l : List α} {f : α → β} {g : α → γ}
+    (h : (l.map f).Nodup) (hi : ∀ p ∈ l, ∀ q ∈ l, g p = g q → f p = f q) : (l.map g).Nodup := by
+  induction l with
+  | nil => simp
+  | cons a t ih =>
+    simp only [List.map_cons, List.nodup_cons] at h ⊢
+    refine ⟨?_, ih h.2 (fun p hp q hq => hi p (List.mem_cons_of_mem _ hp) q (List.mem_cons_of_mem _ hq))⟩
+    intro hm
+    obtain ⟨q, hq, e⟩ := List.mem_map.1 hm
+    apply h.1
+    rw [hi a List.mem_cons_self q (List.mem_cons_of_mem _ hq) e.symm]
+    exact List.mem_map.2 ⟨q, hq, rfl⟩
+
+theorem eq_of_nodup_map {α β : Type} {l : List α} {g : α → β} (h : (l.map g).Nodup)
+    {p q : α} (hp : p ∈ l) (hq : q ∈ l) (e : g p = g q) : p = q := by
+  induction l with
+  | nil => simp at hp
+  | cons a t ih =>
+    simp only [List.map_cons, List.nodup_cons] at h
+    rcases List.mem_cons.1 hp with rfl | hp' <;> rcases List.mem_cons.1 hq with rfl | hq'
+    · rfl
+    · exfalso; apply h.1; rw [e]; exact List.mem_map.2 ⟨q, hq', rfl⟩
+    · exfalso; apply h.1; rw [← e]; exact List.mem_map.2 ⟨p, hp', rfl⟩
+    · exact ih h.2 hp' hq'
+
+/-! ## 10. `GenericBalanceUnvalidated::validate` -/
+
+/-- the address a valid string denotes -/
+def RawAddr.get : RawAddr → Nat
+  | .valid a => a
+  | .invalid => 0
+
+def valCoin (p : RawAddr × Nat) : Coin := ⟨p.1.get, p.2⟩
+def valNft (p : RawAddr × Nat) : Nft := ⟨p.1.get, p.2⟩
+
+theorem validateCw20_spec (xs : List (RawAddr × Nat)) (c : List Coin) :
+    validateCw20 xs = some c ↔
+      (∀ p ∈ xs, p.1 ≠ .invalid ∧ p.2 ≠ 0) ∧ c = xs.map valCoin := by
+  induction xs generalizing c with
+  | nil => simp [validateCw20, eq_comm]
+  | cons x xs ih =>
+    obtain ⟨a, amt⟩ := x
+    cases a with
+    | invalid => simp [validateCw20]
+    | valid a =>
+      simp only [validateCw20]
+      by_cases hz : amt = 0
+      · simp [hz]
+      · simp only [hz, if_false]
+        cases hv : validateCw20 xs with
+        | none =>
+          simp only [List.mem_cons, List.map_cons]
+          constructor
+          · intro h; cases h
+          · rintro ⟨h, _⟩
+            have := (ih _).2 ⟨fun p hp => h p (.inr hp), rfl⟩
+            rw [hv] at this; cases this
+        | some r =>
+          obtain ⟨h1, h2⟩ := (ih r).1 hv
+          simp only [Option.some.injEq, List.mem_cons, List.map_cons]
+          constructor
+          · intro e
+            subst e
+            refine ⟨?_, by rw [h2]; rfl⟩
+            rintro p (rfl | hp)
+            · exact ⟨by simp, hz⟩
+            · exact h1 p hp
+          · rintro ⟨_, e⟩
+            rw [e, h2]; rfl
+
+theorem validateNfts_spec (xs : List (RawAddr × Nat)) (c : List Nft) :
+    validateNfts xs = some c ↔ (∀ p ∈ xs, p.1 ≠ .invalid) ∧ c = xs.map valNft := by
+  induction xs generalizing c with
+  | nil => simp [validateNfts, eq_comm]
+  | cons x xs ih =>
+    obtain ⟨a, t⟩ := x
+    cases a with
+    | invalid => simp [validateNfts]
+    | valid a =>
+      simp only [validateNfts]
+      cases hv : validateNfts xs with
+      | none =>
+        simp only [List.mem_cons, List.map_cons]
+        constructor
+        · intro h; cases h
+        · rintro ⟨h, _⟩
+          have := (ih _).2 ⟨fun p hp => h p (.inr hp), rfl⟩
+          rw [hv] at this; cases this
+      | some r =>
+        obtain ⟨h1, h2⟩ := (ih r).1 hv
+        simp only [Option.some.injEq, List.mem_cons, List.map_cons]
+        constructor
+        · intro e
+          subst e
+          refine ⟨?_, by rw [h2]; rfl⟩
+          rintro p (rfl | hp)
+          · simp
+          · exact h1 p hp
+        · rintro ⟨_, e⟩
+          rw [e, h2]; rfl
+
+theorem validateAsk_spec (r : RawGBal) (g : GBal) :
+    validateAsk r = some g ↔
+      (∀ p ∈ r.cw20, p.1 ≠ .invalid ∧ p.2 ≠ 0) ∧ (∀ p ∈ r.nfts, p.1 ≠ .invalid) ∧
+      g = ⟨r.native, r.cw20.map valCoin, r.nfts.map valNft⟩ ∧ checkValid g = true := by
+  unfold validateAsk
+  cases h1 : validateCw20 r.cw20 with
+  | none =>
+    simp only []
+    constructor
+    · intro h; cases h
+    · rintro ⟨a, _, _, _⟩
+      have := (validateCw20_spec _ _).2 ⟨a, rfl⟩
+      rw [h1] at this; cases this
+  | some c =>
+    obtain ⟨a1, a2⟩ := (validateCw20_spec _ _).1 h1
+    cases h2 : validateNfts r.nfts with
+    | none =>
+      simp only []
+      constructor
+      · intro h; cases h
+      · rintro ⟨_, b, _, _⟩
+        have := (validateNfts_spec _ _).2 ⟨b, rfl⟩
+        rw [h2] at this; cases this
+    | some n =>
+      obtain ⟨b1, b2⟩ := (validateNfts_spec _ _).1 h2
+      subst a2 b2
+      dsimp only
+      split
+      · next hv =>
+        simp only [Option.some.injEq]
+        constructor
+        · intro e; subst e; exact ⟨a1, b1, rfl, hv⟩
+        · rintro ⟨_, _, e, _⟩; exact e.symm
+      · next hv =>
+        constructor
+        · intro h; cases h
+        · rintro ⟨_, _, e, hv'⟩; subst e; exact absurd hv' hv
+
+theorem rawAddr_get_inj {a b : RawAddr} (ha : a ≠ .invalid) (hb : b ≠ .invalid)
+    (h : a.get = b.get) : a = b := by
+  cases a <;> cases b <;> simp_all [RawAddr.get]
+
+theorem keys_map_valCoin (xs : List (RawAddr × Nat)) :
+    keys (xs.map valCoin) = xs.map (fun p => p.1.get) := by
+  simp [keys, valCoin, List.map_map, Function.comp_def]
+
+theorem nodup_valCoin {xs : List (RawAddr × Nat)} (hv : ∀ p ∈ xs, p.1 ≠ .invalid) :
+    (keys (xs.map valCoin)).Nodup ↔ (xs.map (·.1)).Nodup := by
+  rw [keys_map_valCoin]
+  constructor
+  · intro h
+    exact nodup_map_of_inj (l := xs) (f := fun p => p.1.get) (g := fun p => p.1) h
+      (fun p _ q _ e => by rw [e])
+  · intro h
+    exact nodup_map_of_inj (l := xs) (f := fun p => p.1) (g := fun p => p.1.get) h
+      (fun p hp q hq e => rawAddr_get_inj (hv p hp) (hv q hq) e)
+
+theorem nodup_valNft {xs : List (RawAddr × Nat)} (hv : ∀ p ∈ xs, p.1 ≠ .invalid) :
+    (xs.map valNft).Nodup ↔ xs.Nodup := by
+  constructor
+  · intro h
+    have := nodup_map_of_inj (l := xs) (f := valNft) (g := fun p => p) h (fun p _ q _ e => by rw [e])
+    simpa using this
+  · intro h
+    have h' : (xs.map (fun p => p)).Nodup := by simpa using h
+    refine nodup_map_of_inj (l := xs) (f := fun p => p) (g := valNft) h' ?_
+    intro p hp q hq e
+    simp only [valNft, Nft.mk.injEq] at e
+    exact Prod.ext (rawAddr_get_inj (hv p hp) (hv q hq) e.1) e.2
+
+/-! ## 11. well-formed payout messages -/
+
+/-- a message the bank / a token contract cannot reject for being empty, zero or duplicated -/
+def OutMsg.wellFormed : OutMsg → Prop
+  | .bankSend _ coins => coins ≠ [] ∧ (∀ c ∈ coins, c.amount ≠ 0) ∧ (keys coins).Nodup
+  | .cw20Transfer _ _ amt => amt ≠ 0
+  | .nftTransfer _ _ _ => True
+  | .fundPool _ c => c.amount ≠ 0
+
+def OutMsg.bankCoins : OutMsg → Option (Nat × List Coin)
+  | .bankSend to cs => some (to, cs)
+  | _ => none
+def OutMsg.cw20Of : OutMsg → Option (Nat × Nat × Nat)
+  | .cw20Transfer t to a => some (t, to, a)
+  | _ => none
+def OutMsg.nftOf : OutMsg → Option (Nft × Nat)
+  | .nftTransfer c t to => some (⟨c, t⟩, to)
+  | _ => none
+def OutMsg.poolOf : OutMsg → Option (Nat × Coin)
+  | .fundPool d c => some (d, c)
+  | _ => none
+
+theorem filterMap_map_none {α β γ : Type} (f : α → β) (g : β → Option γ) (l : List α)
+    (h : ∀ a, g (f a) = none) : (l.map f).filterMap g = [] := by
+  induction l with
+  | nil => rfl
+  | cons a t ih => simp [h a, ih]
+
+theorem filterMap_map_some {α β γ : Type} (f : α → β) (g : β → Option γ) (k : α → γ) (l : List α)
+    (h : ∀ a, g (f a) = some (k a)) : (l.map f).filterMap g = l.map k := by
+  induction l with
+  | nil => rfl
+  | cons a t ih => simp [h a, ih]
+
+/-- the structure of `send_tokens_cosmos` -/
+theorem sendTokens_parts (to : Nat) (g : GBal) :
+    (sendTokens to g).filterMap OutMsg.bankCoins = (if g.native = [] then [] else [(to, g.native)]) ∧
+    (sendTokens to g).filterMap OutMsg.cw20Of = g.cw20.map (fun c => (c.key, to, c.amount)) ∧
+    (sendTokens to g).filterMap OutMsg.nftOf = g.nfts.map (fun n => (n, to)) ∧
+    (sendTokens to g).filterMap OutMsg.poolOf = [] := by
+  unfold sendTokens
+  simp only [List.filterMap_append]
+  rw [filterMap_map_none _ OutMsg.bankCoins g.cw20 (fun _ => rfl),
+      filterMap_map_none _ OutMsg.bankCoins g.nfts (fun _ => rfl),
+      filterMap_map_none _ OutMsg.cw20Of g.nfts (fun _ => rfl),
+      filterMap_map_none _ OutMsg.nftOf g.cw20 (fun _ => rfl),
+      filterMap_map_none _ OutMsg.poolOf g.cw20 (fun _ => rfl),
+      filterMap_map_none _ OutMsg.poolOf g.nfts (fun _ => rfl),
+      filterMap_map_some _ OutMsg.cw20Of (fun c => (c.key, to, c.amount)) g.cw20 (fun _ => rfl),
+      filterMap_map_some _ OutMsg.nftOf (fun n => (n, to)) g.nfts (fun _ => rfl)]
+  cases hn : g.native with
+  | nil => simp
+  | cons a t => simp [OutMsg.bankCoins, OutMsg.cw20Of, OutMsg.nftOf, OutMsg.poolOf]
+
+theorem sendTokens_wellFormed {to : Nat} {g : GBal} (wf : wfBal g = true) :
+    ∀ msg ∈ sendTokens to g, msg.wellFormed := by
+  obtain ⟨w1, w2, _, w4, _, _⟩ := (wfBal_iff g).1 wf
+  intro msg hm
+  unfold sendTokens at hm
+  rcases List.mem_append.1 hm with hm | hm
+  · rcases List.mem_append.1 hm with hm | hm
+    · split at hm
+      · simp at hm
+      · next hne =>
+        simp only [List.mem_singleton] at hm
+        subst hm
+        exact ⟨by intro e; rw [e] at hne; simp at hne, w1, w4⟩
+    · obtain ⟨c, hc, rfl⟩ := List.mem_map.1 hm
+      exact w2 c hc
+  · obtain ⟨n, _, rfl⟩ := List.mem_map.1 hm
+    trivial
+
+theorem withdrawMsgs_wellFormed {j u self to : Nat} {g : GBal} {fee : Option Coin}
+    (wf : wfBal g = true) (wff : wfFee j u fee = true) :
+    ∀ msg ∈ withdrawMsgs self to g fee, msg.wellFormed := by
+  intro msg hm
+  unfold withdrawMsgs at hm
+  rcases List.mem_append.1 hm with hm | hm
+  · exact sendTokens_wellFormed wf msg hm
+  · cases fee with
+    | none => simp at hm
+    | some f =>
+      simp only [List.mem_singleton] at hm
+      subst hm
+      simp only [wfFee, Bool.and_eq_true, decide_eq_true_eq] at wff
+      exact wff.1
+
+theorem withdrawMsgs_parts (self to : Nat) (g : GBal) (fee : Option Coin) :
+    (withdrawMsgs self to g fee).filterMap OutMsg.bankCoins =
+      (if g.native = [] then [] else [(to, g.native)]) ∧
+    (withdrawMsgs self to g fee).filterMap OutMsg.cw20Of = g.cw20.map (fun c => (c.key, to, c.amount)) ∧
+    (withdrawMsgs self to g fee).filterMap OutMsg.nftOf = g.nfts.map (fun n => (n, to)) ∧
+    (withdrawMsgs self to g fee).filterMap OutMsg.poolOf =
+      (match fee with | none => [] | some f => [(self, f)]) := by
+  obtain ⟨h1, h2, h3, h4⟩ := sendTokens_parts to g
+  unfold withdrawMsgs
+  simp only [List.filterMap_append, h1, h2, h3, h4]
+  cases fee <;> simp [OutMsg.bankCoins, OutMsg.cw20Of, OutMsg.nftOf, OutMsg.poolOf]
+
+/-! ## 12. how many assets a top-up adds -/
+
+theorem addCoins_length {l r cs : List Coin} (h : addCoins l cs = some r) (nd : (keys cs).Nodup) :
+    r.length = l.length + ((keys cs).filter (fun k => decide (k ∉ keys l))).length := by
+  induction cs generalizing l with
+  | nil => simp only [addCoins, Option.some.injEq] at h; subst h; simp [keys]
+  | cons c cs ih =>
+    have e2 : keys (c :: cs) = c.key :: keys cs := rfl
+    rw [e2, List.nodup_cons] at nd
+    simp only [addCoins] at h
+    split at h
+    · cases h
+    · next l' hl' =>
+      have hk := addCoin_keys hl'
+      have hlen := congrArg List.length hk
+      rw [keys_length] at hlen
+      rw [ih h nd.2, e2]
+      by_cases hc : c.key ∈ keys l
+      · rw [if_pos hc] at hk hlen
+        rw [keys_length] at hlen
+        rw [List.filter_cons_of_neg (by simpa using hc), hk, hlen]
+      · rw [if_neg hc] at hk hlen
+        rw [List.length_append, keys_length] at hlen
+        rw [List.filter_cons_of_pos (by simpa using hc), hlen]
+        have : (keys cs).filter (fun k => decide (k ∉ keys l')) =
+            (keys cs).filter (fun k => decide (k ∉ keys l)) := by
+          apply List.filter_congr
+          intro x hx
+          have hne : x ≠ c.key := fun e => nd.1 (e ▸ hx)
+          rw [hk]
+          simp [hne]
+        rw [this]
+        simp only [List.length_cons, List.length_nil]
+        omega
+
+theorem addCoin_length {l r : List Coin} {c : Coin} (h : addCoin l c = some r) :
+    r.length = l.length + (if c.key ∈ keys l then 0 else 1) := by
+  have hlen := congrArg List.length (addCoin_keys h)
+  rw [keys_length] at hlen
+  rw [hlen]
+  split
+  · rw [keys_length]; rfl
+  · rw [List.length_append, keys_length]; rfl
+
+/-- the denominations / the token a deposit brings that the balance does not hold yet -/
+def Funds.newAssets (g : GBal) : Funds → Nat
+  | .native cs => ((keys cs).filter (fun k => decide (k ∉ keys g.native))).length
+  | .cw20 c => if c.key ∈ keys g.cw20 then 0 else 1
+
+/-- after `add_tokens` the asset count has grown by exactly the number of new denominations (resp.
+    by one for a new token) -/
+theorem addTokens_count {g nf : GBal} {funds : Funds} (hn : normalizedCheck funds = true)
+    (h : addTokens g funds = some nf) : nf.count = g.count + funds.newAssets g := by
+  cases funds with
+  | native cs =>
+    simp only [addTokens] at h
+    split at h
+    · cases h
+    · next n hn' =>
+      cases h
+      simp only [normalizedCheck, Bool.and_eq_true, decide_eq_true_eq] at hn
+      simp only [GBal.count, Funds.newAssets, addCoins_length hn' hn.2]
+      omega
+  | cw20 c =>
+    simp only [addTokens] at h
+    split at h
+    · cases h
+    · next n hn' =>
+      cases h
+      simp only [GBal.count, Funds.newAssets, addCoin_length hn']
+      omega
+
+/-! ## 13. the messages of every handler -/
+
+/-- closes `h : handler … = .ok (m', out) ⊢ out = []` once the handler is unfolded in `h` -/
+syntax "out_nil " ident : tactic
+macro_rules
+  | `(tactic| out_nil $h:ident) => `(tactic| (
+      try dsimp only at $h:ident
+      repeat' split at $h:ident
+      all_goals first
+        | (cases $h:ident; done)
+        | (simp only [Except.ok.injEq, Prod.mk.injEq] at $h:ident
+           obtain ⟨_, ho⟩ := $h:ident
+           exact ho.symm)))
+
+section outs
+variable {m m' : Market} {out : List OutMsg}
+
+theorem createBucket_out {funds : Funds} {creator id : Nat}
+    (h : createBucket m funds creator id = .ok (m', out)) : out = [] := by
+  unfold createBucket at h; out_nil h
+theorem createBucketNft_out {user : Nat} {nft : Nft} {id : Nat}
+    (h : createBucketNft m user nft id = .ok (m', out)) : out = [] := by
+  unfold createBucketNft at h; out_nil h
+theorem addToBucket_out {funds : Funds} {sender id : Nat}
+    (h : addToBucket m funds sender id = .ok (m', out)) : out = [] := by
+  unfold addToBucket at h; out_nil h
+theorem addToBucketNft_out {user : Nat} {nft : Nft} {id : Nat}
+    (h : addToBucketNft m user nft id = .ok (m', out)) : out = [] := by
+  unfold addToBucketNft at h; out_nil h
+theorem createListing_out {user : Nat} {funds : Funds} {c : CreateMsg} {id : Nat}
+    (h : createListing m user funds c id = .ok (m', out)) : out = [] := by
+  unfold createListing at h; out_nil h
+theorem createListingNft_out {user : Nat} {nft : Nft} {c : CreateMsg} {id : Nat}
+    (h : createListingNft m user nft c id = .ok (m', out)) : out = [] := by
+  unfold createListingNft at h; out_nil h
+theorem changeAsk_out {user id : Nat} {newAsk : RawGBal}
+    (h : changeAsk m user id newAsk = .ok (m', out)) : out = [] := by
+  unfold changeAsk at h; out_nil h
+theorem addToListing_out {funds : Funds} {user id : Nat}
+    (h : addToListing m funds user id = .ok (m', out)) : out = [] := by
+  unfold addToListing at h; out_nil h
+theorem addToListingNft_out {user : Nat} {nft : Nft} {id : Nat}
+    (h : addToListingNft m user nft id = .ok (m', out)) : out = [] := by
+  unfold addToListingNft at h; out_nil h
+theorem finalize_out {env : Env} {sender id seconds : Nat}
+    (h : finalize m env sender id seconds = .ok (m', out)) : out = [] := by
+  unfold finalize at h; out_nil h
+theorem cycleFee_out {env : Env} (h : cycleFee m env = .ok (m', out)) : out = [] := by
+  unfold cycleFee at h; out_nil h
+
+theorem receive_out {env : Env} {caller : Nat} {funds : List Coin} {sender : RawAddr} {amount : Nat}
+    {inner : Option Inner} (h : receive m env caller funds sender amount inner = .ok (m', out)) :
+    out = [] := by
+  unfold receive at h
+  repeat' split at h
+  all_goals first
+    | contradiction
+    | exact createListing_out h
+    | exact addToListing_out h
+    | exact createBucket_out h
+    | exact addToBucket_out h
+
+theorem receiveNft_out {env : Env} {caller : Nat} {funds : List Coin} {sender : RawAddr} {tid : Nat}
+    {inner : Option Inner} (h : receiveNft m env caller funds sender tid inner = .ok (m', out)) :
+    out = [] := by
+  unfold receiveNft at h
+  repeat' split at h
+  all_goals first
+    | contradiction
+    | exact createListingNft_out h
+    | exact addToListingNft_out h
+    | exact createBucketNft_out h
+    | exact addToBucketNft_out h
+
+end outs
+
+theorem royalties_wellFormed {g g' : GBal} {resp : List (Option RoyaltyInfo)} {ms : List OutMsg}
+    {s : Nat} (h : royalties g resp = .ok g' ms s) : ∀ x ∈ ms, x.wellFormed := by
+  obtain ⟨_, _, _, hm, _, _⟩ := royalties_closed h
+  subst hm
+  intro x hx
+  rcases List.mem_append.1 hx with hx | hx
+  · obtain ⟨c, _, hx⟩ := List.mem_flatMap.1 hx
+    unfold royMsgs at hx
+    obtain ⟨p, hp, rfl⟩ := List.mem_map.1 hx
+    obtain ⟨r, _, rfl, hz⟩ := royPays_mem hp
+    simpa [mkBank, OutMsg.wellFormed, keys] using hz
+  · obtain ⟨c, _, hx⟩ := List.mem_flatMap.1 hx
+    unfold royMsgs at hx
+    obtain ⟨p, hp, rfl⟩ := List.mem_map.1 hx
+    obtain ⟨r, _, rfl, hz⟩ := royPays_mem hp
+    simpa [mkCw20, OutMsg.wellFormed] using hz
+
+theorem sideRoyalties_wellFormed {env : Env} {ra : Nat} {cols : List Nat} {bal g : GBal}
+    {ms : List OutMsg} {s : Nat} (h : sideRoyalties env ra cols bal = .ok g ms s) :
+    ∀ x ∈ ms, x.wellFormed := by
+  unfold sideRoyalties at h
+  split at h
+  · cases h; simp
+  · split at h
+    · cases h
+    · exact royalties_wellFormed h
+
+/-- the messages of a purchase: the pending fee of the paying bucket (repair of D1), then the
+    royalty payouts of both sides -/
+theorem buy_out {m m' : Market} {out : List OutMsg} {env : Env} {buyer lid bid : Nat}
+    (h : buy m env buyer lid bid = .ok (m', out)) :
+    ∃ b msgs1 msgs2, alookup (buyer, bid) m.buckets = some b ∧
+      out = (match b.fee with | some f => [OutMsg.fundPool env.self f] | none => []) ++ msgs1 ++ msgs2 ∧
+      (∀ x ∈ msgs1, x.wellFormed) ∧ (∀ x ∈ msgs2, x.wellFormed) := by
+  unfold buy at h
+  split at h
+  · cases h
+  rename_i b hb
+  split at h
+  · cases h
+  rename_i k l hl
+  repeat' split at h
+  all_goals first | (cases h; done) | skip
+  all_goals
+    have hr1 := ‹sideRoyalties _ _ (collections l.forSale) _ = RoyRes.ok _ _ _›
+    have hr2 := ‹sideRoyalties _ _ (collections b.funds) _ = RoyRes.ok _ _ _›
+    simp only [Except.ok.injEq, Prod.mk.injEq] at h
+    obtain ⟨_, rfl⟩ := h
+    refine ⟨b, _, _, hb, ?_, sideRoyalties_wellFormed hr1, sideRoyalties_wellFormed hr2⟩
+    first
+      | (have hf := ‹b.fee = some _›; rw [hf])
+      | (have hf := ‹b.fee = none›; rw [hf])
+
 end Fuzion
